@@ -328,3 +328,149 @@ Proof.
     + rewrite <- DP.rsum_add. apply DP.rsum_ext. intros i _. apply DP.rsum_add.
 Qed.
 End RealDensity.
+
+(* ------------------------------------------------------------------ *)
+(* 3. C06 over R: the jets of density.py are the real derivatives of rho *)
+(* ------------------------------------------------------------------ *)
+(* first partial derivative along axis k (any k >= 2 is z, as in [bump]) *)
+Definition pdk (k : nat) (F : R -> R -> R -> R) (x y z : R) : R :=
+  match k with
+  | 0%nat => Derive (fun t => F t y z) x
+  | 1%nat => Derive (fun t => F x t z) y
+  | _ => Derive (fun t => F x y t) z
+  end.
+
+Lemma pdk_ext k F F' x y z : (forall x y z, F x y z = F' x y z) -> pdk k F x y z = pdk k F' x y z.
+Proof. intro E. destruct k as [|[|k]]; cbn [pdk]; apply Derive_ext; intro t; apply E. Qed.
+
+Lemma pdk_closed (H : fam) : closed H -> forall k a b x y z, pdk k (H a b) x y z = DF k H a b x y z.
+Proof.
+  intros C k a b x y z. destruct (C a b x y z) as [X [Y Z]].
+  destruct k as [|[|k]]; cbn [pdk]; apply is_derive_unique; assumption.
+Qed.
+
+Lemma pdk_pd3 F x y z :
+  pdk 0 F x y z = pd3 1 0 0 F x y z /\ pdk 1 F x y z = pd3 0 1 0 F x y z /\ pdk 2 F x y z = pd3 0 0 1 F x y z.
+Proof. repeat split. Qed.
+
+Lemma DJeval_ext (g g' : ord -> ord -> R) (j : DJ.jet R) :
+  (forall a b, g a b = g' a b) -> DJ.eval RK g j = DJ.eval RK g' j.
+Proof. intro E. induction j as [|t j IH]; cbn [DJ.eval]; [reflexivity|]. now rewrite IH, E. Qed.
+
+(* second derivatives of the formal density, seen through eval *)
+Lemma eval_drho2 (g : ord -> ord -> R) p q : (p < 3)%nat -> (q < 3)%nat ->
+  DJ.eval RK g (DJ.drho RK (DJ.oplus (eax p) (eax q))) = DP.Dg RK p (DP.Dg RK q g) ord0 ord0.
+Proof.
+  intros Hp Hq.
+  destruct p as [|[|[|p]]]; try lia; destruct q as [|[|[|q]]]; try lia;
+    unfold DP.Dg; cbn; ring.
+Qed.
+Lemma eval_drho1 (g : ord -> ord -> R) k : (k < 3)%nat ->
+  DJ.eval RK g (DJ.drho RK (eax k)) = DP.Dg RK k g ord0 ord0.
+Proof. intros Hk. destruct k as [|[|[|k]]]; try lia; unfold DP.Dg; cbn; ring. Qed.
+
+Section C06Real.
+Variable n : nat.
+Variable P : nat -> nat -> R.
+Variable f : nat -> R -> R -> R -> R.
+Hypothesis Hf : forall a, (a < n)%nat -> smooth3 (f a).
+Notation G := (GR n P f).
+Notation rho := (rhoR n P f).
+Let Gc : closed G := GR_closed n P f Hf.
+
+(* evaluate_density: the model IS rho(r) = sum_ab P_ab f_a(r) f_b(r) *)
+Theorem density_real x y z : DJ.eval RK (at_pt G x y z) (DJ.density_model RK) = rho x y z.
+Proof. unfold DJ.density_model, DJ.G00. cbn [DJ.eval fst snd]. unfold at_pt. rewrite GR_00.
+  change (fmul RK) with Rmult. change (fadd RK) with Rplus. change (f1 RK) with 1. change (f0 RK) with 0. ring. Qed.
+
+(* the L-th total derivative of the jets is the mixed partial derivative of the real density *)
+Theorem pd3_rho_is_drho lx ly lz x y z :
+  pd3 lx ly lz rho x y z = DJ.eval RK (at_pt G x y z) (DJ.drho RK (lx, ly, lz)).
+Proof. exact (pd3_is_drho G Gc lx ly lz x y z). Qed.
+
+(* the Leibniz sum of the docstring (any P) *)
+Theorem leibniz_real lx ly lz x y z :
+  DJ.eval RK (at_pt G x y z) (DJ.leibniz RK (lx, ly, lz)) = pd3 lx ly lz rho x y z.
+Proof. rewrite pd3_rho_is_drho. apply (DP.leibniz_drho RK RK_field). Qed.
+
+Hypothesis Psym : forall a b, P a b = P b a.
+Let Gs x y z : forall a b, at_pt G x y z a b = at_pt G x y z b a :=
+  fun a b => GR_sym n P f Psym a b x y z.
+
+(* evaluate_deriv_density as written (l_x <= L_x/2 loop, factor 2/1): EVERY order triple *)
+Theorem deriv_density_real lx ly lz x y z :
+  DJ.eval RK (at_pt G x y z) (DJ.shortcut RK (lx, ly, lz)) = pd3 lx ly lz rho x y z.
+Proof. rewrite pd3_rho_is_drho. apply (DP.shortcut_correct RK RK_field _ (Gs x y z)). Qed.
+
+(* evaluate_density_gradient: component k is the derivative of rho along axis k *)
+Theorem grad_real x y z :
+  is_derive (fun t => rho t y z) x (DJ.eval RK (at_pt G x y z) (DJ.grad_model RK 0))
+  /\ is_derive (fun t => rho x t z) y (DJ.eval RK (at_pt G x y z) (DJ.grad_model RK 1))
+  /\ is_derive (fun t => rho x y t) z (DJ.eval RK (at_pt G x y z) (DJ.grad_model RK 2)).
+Proof.
+  destruct (Gc ord0 ord0 x y z) as [X [Y Z]].
+  rewrite !(DP.grad_correct RK RK_field _ (Gs x y z)) by lia.
+  rewrite !eval_drho1 by lia. split; [|split]; assumption.
+Qed.
+Corollary grad_real_pdk k x y z : (k < 3)%nat ->
+  DJ.eval RK (at_pt G x y z) (DJ.grad_model RK k) = pdk k rho x y z.
+Proof.
+  intro Hk. destruct (grad_real x y z) as [X [Y Z]].
+  destruct k as [|[|[|k]]]; try lia; cbn [pdk]; symmetry; apply is_derive_unique; assumption.
+Qed.
+
+(* evaluate_density_laplacian *)
+Theorem lap_real x y z : DJ.eval RK (at_pt G x y z) (DJ.lap_model RK) = lap3 rho x y z.
+Proof.
+  rewrite (DP.lap_correct RK RK_field _ (Gs x y z)). unfold DJ.lap_def.
+  rewrite !(DP.eval_app RK RK_field). unfold lap3. rewrite !pd3_rho_is_drho.
+  change (fadd RK) with Rplus. cbn [bump eax ord0 DJ.bump DJ.eax DJ.ord0]. ring.
+Qed.
+
+(* evaluate_density_hessian: entry (p, q) is d/dr_p d/dr_q rho *)
+Theorem hess_real p q x y z : (p < 3)%nat -> (q < 3)%nat ->
+  DJ.eval RK (at_pt G x y z) (DJ.hess_model RK p q) = pdk p (pdk q rho) x y z.
+Proof.
+  intros Hp Hq. rewrite (DP.hess_correct RK RK_field _ (Gs x y z)) by assumption.
+  rewrite eval_drho2 by assumption.
+  rewrite (pdk_ext p (pdk q rho) (DF q G ord0 ord0)) by (intros x' y' z'; exact (pdk_closed G Gc q ord0 ord0 x' y' z')).
+  rewrite (pdk_closed (DF q G) (closed_DF q G Gc)). reflexivity.
+Qed.
+
+(* symmetry of the second partial derivatives of rho (Schwarz), from hess_sym *)
+Theorem schwarz_rho p q x y z : (p < 3)%nat -> (q < 3)%nat ->
+  pdk p (pdk q rho) x y z = pdk q (pdk p rho) x y z.
+Proof. intros Hp Hq. rewrite <- !hess_real by assumption. apply DP.hess_sym. Qed.
+
+(* trace of the real Hessian = real Laplacian, through the models *)
+Theorem hess_trace_real x y z :
+  pdk 0 (pdk 0 rho) x y z + pdk 1 (pdk 1 rho) x y z + pdk 2 (pdk 2 rho) x y z = lap3 rho x y z.
+Proof.
+  rewrite <- lap_real, <- (DP.hess_trace_lap RK RK_field _ (Gs x y z)), !(DP.eval_app RK RK_field).
+  rewrite !hess_real by lia. change (fadd RK) with Rplus. ring.
+Qed.
+
+(* positive-definite kinetic energy density t_+ = 1/2 sum_ab P_ab grad f_a . grad f_b *)
+Definition tplusR (x y z : R) : R :=
+  / 2 * (rsum n (fun a => rsum n (fun b => P a b * pdk 0 (f a) x y z * pdk 0 (f b) x y z))
+         + rsum n (fun a => rsum n (fun b => P a b * pdk 1 (f a) x y z * pdk 1 (f b) x y z))
+         + rsum n (fun a => rsum n (fun b => P a b * pdk 2 (f a) x y z * pdk 2 (f b) x y z))).
+
+Theorem ked_real x y z : DJ.eval RK (at_pt G x y z) (DJ.ked_model RK) = tplusR x y z.
+Proof.
+  unfold DJ.ked_model. cbn [DJ.eval fst snd]. unfold at_pt, tplusR.
+  change (G (eax 0) (eax 0) x y z) with (rsum n (fun a => rsum n (fun b => P a b * pdk 0 (f a) x y z * pdk 0 (f b) x y z))).
+  change (G (eax 1) (eax 1) x y z) with (rsum n (fun a => rsum n (fun b => P a b * pdk 1 (f a) x y z * pdk 1 (f b) x y z))).
+  change (G (eax 2) (eax 2) x y z) with (rsum n (fun a => rsum n (fun b => P a b * pdk 2 (f a) x y z * pdk 2 (f b) x y z))).
+  unfold DJ.half, DJ.two. change (fmul RK) with Rmult. change (fadd RK) with Rplus. change (fdiv RK) with Rdiv.
+  change (f1 RK) with 1. change (f0 RK) with 0. field.
+Qed.
+
+(* general kinetic energy density = t_+ + alpha * Laplacian(rho) *)
+Theorem gked_real alpha x y z :
+  DJ.eval RK (at_pt G x y z) (DJ.gked_model RK alpha) = tplusR x y z + alpha * lap3 rho x y z.
+Proof.
+  unfold DJ.gked_model. rewrite (DP.eval_app RK RK_field), (DP.eval_scale RK RK_field), ked_real, lap_real.
+  reflexivity.
+Qed.
+End C06Real.
